@@ -25,6 +25,9 @@ CLAIMED = {
  "C12": ("The real editor / Selection.beginEdit/endEdit/Delete code runs over two recording reference stores (source and target) on a schema compiled by the real loader; the fault position is a full-width symbolic integer compared with the callback counter, so every position of every callback kind (Child, Next, Field, Choose, BeginEdit, EndEdit) on either side is explored and decided by the solver; 4 tree shapes x pre-populated or empty target x upsert/insert/update/delete x entry at root or container. A monitor over the callback logs asserts: successful Begin count = End count per node and End after Begin, no write after the failing call, the call fails with an error satisfying errors.Is(err, injected), nodes outside the edit get no notification, no panic.",
          NOTE_COMMON + "Outside the claim: reflection-backed nodes and nodeutil.Basic/Extend dispatch, trigger tables, tree shapes other than the 4 listed, list-entry entry points. Known finding C12-choose-error-swallowed.",
          "DESIGN.md §2 C12"),
+ "C03": ("The real Selection.UpsertFrom/InsertFrom/UpdateFrom + editor run inside the interpreter over reference stores on a schema with leaves, defaults, nested containers and a keyed list with a nested container. Source and target trees have symbolic shape flags (every combination explored), full-width symbolic leaf values and symbolic int32 list keys (distinct per list; matches between source and target decided by the solver). The final target is compared with a reference keyed deep merge executed next to it (defaults only in created nodes, unmentioned paths unchanged); conflict / not-found outcomes must satisfy errors.Is(fc.ConflictError / fc.NotFoundError). Entry points: module root, container, list; rows per list <=1 quick / <=2 thorough.",
+         NOTE_COMMON + "Outside the claim: reflection-backed nodes (map/slice/struct) and the JSON/XML readers as source or target, list-entry entry points, sequences of edits, schemas other than the one listed.",
+         "DESIGN.md §2 C03"),
 }
 NA_REASON = "engine under construction; no check registered yet"
 
